@@ -151,7 +151,7 @@ Qed.
 Lemma upd_nth_length {A} (f : A -> A) l : forall k, length (upd_nth k f l) = length l.
 Proof. induction l as [|x l IH]; intros [|k]; cbn [upd_nth length]; [reflexivity..|]. rewrite IH. reflexivity. Qed.
 
-Lemma upd_nth_app_end {A} (f : A -> A) l x : upd_nth (length l) f (l ++ [x]) = l ++ [f x].
+Lemma upd_nth_app_end {A} (f : A -> A) l x tl : upd_nth (length l) f (l ++ x :: tl) = l ++ f x :: tl.
 Proof. induction l as [|y l IH]; [reflexivity|]. cbn [length app upd_nth]. rewrite IH. reflexivity. Qed.
 
 Lemma set_nth_app {A} (done : list A) p todo v :
@@ -166,14 +166,14 @@ Proof. induction done as [|y l IH]; [reflexivity|]. exact IH. Qed.
 Lemma h_get_app1 h x id : id < length h -> h_get (h ++ x) id = h_get h id.
 Proof. intros H. unfold h_get. apply app_nth1. exact H. Qed.
 
-Lemma h_get_priv h x : h_get (h ++ [x]) (length h) = x.
+Lemma h_get_priv h x tl : h_get (h ++ x :: tl) (length h) = x.
 Proof. unfold h_get. apply nth_middle. Qed.
 
-Lemma h_row_priv h st : h_row (h ++ [[st]]) (length h, 0) = st.
+Lemma h_row_priv h st tl : h_row (h ++ [st] :: tl) (length h, 0) = st.
 Proof. unfold h_row. cbn [fst snd]. rewrite h_get_priv. reflexivity. Qed.
 
-Lemma h_write_priv h x c v :
-  h_write (h ++ [x]) (length h, 0) c v = h ++ [upd_nth 0 (set_nth c v) x].
+Lemma h_write_priv h x tl c v :
+  h_write (h ++ x :: tl) (length h, 0) c v = h ++ upd_nth 0 (set_nth c v) x :: tl.
 Proof. unfold h_write. cbn [fst snd]. apply upd_nth_app_end. Qed.
 
 (* a non-empty last row means the id is allocated *)
@@ -312,9 +312,9 @@ Definition priv_obj (h : heap) (R : N) : rev_obj := {| prev_ref := (length h, 0)
 Lemma mk_reversible_eq h a R : mk_reversible h a R = (h ++ [[h_row h (arg_ref a)]], priv_obj h R).
 Proof. reflexivity. Qed.
 
-Lemma call_refines h R st n c t : (R < 256)%N -> length n = 3 -> c < length st ->
-  reversible_call (priv_obj h R) (h ++ [[st]], None) n c t =
-    ((h ++ [[fst (reversible_rule1 R st n c t)]], None), snd (reversible_rule1 R st n c t)).
+Lemma call_refines h R st tl n c t : (R < 256)%N -> length n = 3 -> c < length st ->
+  reversible_call (priv_obj h R) (h ++ [st] :: tl, None) n c t =
+    ((h ++ [fst (reversible_rule1 R st n c t)] :: tl, None), snd (reversible_rule1 R st n c t)).
 Proof.
   intros HR Hn Hc. destruct (nth_error st c) as [p|] eqn:E; [|apply nth_error_None in E; lia].
   rewrite (rule1_ok R st n c t p HR Hn E). cbn [fst snd].
@@ -322,10 +322,10 @@ Proof.
   rewrite nks_len3, h_row_priv, E, h_write_priv, Hn by assumption. reflexivity.
 Qed.
 
-Lemma apply_all_refines h R (HR : (R < 256)%N) nbs : forall st c t,
+Lemma apply_all_refines h R tl (HR : (R < 256)%N) nbs : forall st c t,
   Forall len3 nbs -> c + length nbs <= length st ->
-  apply_all (reversible_call (priv_obj h R)) idz (h ++ [[st]], None) c nbs t =
-    ((h ++ [[fst (apply_all (reversible_rule1 R) idz st c nbs t)]], None),
+  apply_all (reversible_call (priv_obj h R)) idz (h ++ [st] :: tl, None) c nbs t =
+    ((h ++ [fst (apply_all (reversible_rule1 R) idz st c nbs t)] :: tl, None),
      snd (apply_all (reversible_rule1 R) idz st c nbs t)).
 Proof.
   induction nbs as [|n nbs IH]; intros st c t Hall Hlen; [reflexivity|].
@@ -334,18 +334,18 @@ Proof.
   rewrite IH by (try assumption; rewrite rule1_length; lia). reflexivity.
 Qed.
 
-Lemma step_refines h R st cells t : (R < 256)%N -> 1 <= length cells -> length st = length cells ->
-  step_plain (reversible_call (priv_obj h R)) idz 1 (h ++ [[st]], None) cells t =
-    ((h ++ [[fst (step_plain (reversible_rule1 R) idz 1 st cells t)]], None),
+Lemma step_refines h R st tl cells t : (R < 256)%N -> 1 <= length cells -> length st = length cells ->
+  step_plain (reversible_call (priv_obj h R)) idz 1 (h ++ [st] :: tl, None) cells t =
+    ((h ++ [fst (step_plain (reversible_rule1 R) idz 1 st cells t)] :: tl, None),
      snd (step_plain (reversible_rule1 R) idz 1 st cells t)).
 Proof.
   intros HR HN Hst. unfold step_plain. apply apply_all_refines; [exact HR|apply nbhds_len3; exact HN|].
   rewrite nbhds_length by exact HN. lia.
 Qed.
 
-Lemma iter_refines h R (HR : (R < 256)%N) k : forall st cur t, 1 <= length cur -> length st = length cur ->
-  iter_steps (step_plain (reversible_call (priv_obj h R)) idz 1) k (h ++ [[st]], None) cur t =
-    ((h ++ [[fst (iter_steps (step_plain (reversible_rule1 R) idz 1) k st cur t)]], None),
+Lemma iter_refines h R tl (HR : (R < 256)%N) k : forall st cur t, 1 <= length cur -> length st = length cur ->
+  iter_steps (step_plain (reversible_call (priv_obj h R)) idz 1) k (h ++ [st] :: tl, None) cur t =
+    ((h ++ [fst (iter_steps (step_plain (reversible_rule1 R) idz 1) k st cur t)] :: tl, None),
      snd (iter_steps (step_plain (reversible_rule1 R) idz 1) k st cur t)).
 Proof.
   induction k as [|k IH]; intros st cur t HN Hst; [reflexivity|].
@@ -620,4 +620,102 @@ Proof.
   exists [[[0; 1; 0]]; [[1; 1; 1]]]%Z, [[0; 1; 0]; [1; 1; 1]; [0; 1; 0]]%Z.
   split; [vm_compute; reflexivity|]. split; [lia|]. split; [cbn; intros E; discriminate E|].
   eexists. split; [vm_compute; reflexivity|reflexivity].
+Qed.
+
+(* ------------------------------------------------------------------ f_R is the textbook table *)
+(* elem_cell is written with the model's bits_to_int; on binary cells it is bit 4l + 2c + r of R *)
+Lemma elem_cell_closed_form R l c r : (l = 0 \/ l = 1)%Z -> (c = 0 \/ c = 1)%Z -> (r = 0 \/ r = 1)%Z ->
+  elem_cell R [l; c; r] = b2z (N.testbit R (Z.to_N (4 * l + 2 * c + r))).
+Proof. intros [-> | ->] [-> | ->] [-> | ->]; reflexivity. Qed.
+
+(* ------------------------------------------------------------------ continuing with the same rule object *)
+Lemma h_get_other h x y tl id : id <> length h -> h_get (h ++ x :: tl) id = h_get (h ++ y :: tl) id.
+Proof.
+  intros Hid. unfold h_get. destruct (Nat.lt_ge_cases id (length h)) as [Hlt|Hge].
+  - rewrite !app_nth1 by exact Hlt. reflexivity.
+  - rewrite !app_nth2 by exact Hge. destruct (id - length h) as [|k] eqn:E; [lia|]. reflexivity.
+Qed.
+
+Lemma nth_succ_app {A} (l : list A) x y tl d : nth (S (length l)) (l ++ x :: y :: tl) d = y.
+Proof. induction l as [|a l IH]; [reflexivity|]. exact IH. Qed.
+
+(* evolve with a rule object whose private vector sits anywhere in the heap (not necessarily last) *)
+Lemma evolve_heap_priv h R st tl ca_id T :
+  (R < 256)%N -> ca_id <> length h ->
+  1 <= length (last (h_get (h ++ [st] :: tl) ca_id) []) ->
+  length st = length (last (h_get (h ++ [st] :: tl) ca_id) []) -> 1 <= T ->
+  evolve_heap (h ++ [st] :: tl) ca_id T (priv_obj h R) 1 =
+    Ok (h ++ [so_before R st (last (h_get (h ++ [st] :: tl) ca_id) []) (T - 1)] :: tl,
+        h_get (h ++ [st] :: tl) ca_id ++
+        map (so_row R st (last (h_get (h ++ [st] :: tl) ca_id) [])) (seq 1 (T - 1))).
+Proof.
+  intros HR Hid HN Hst HT. destruct T as [|k]; [lia|]. replace (S k - 1) with k by lia.
+  unfold evolve_heap. rewrite iter_refines, pure_iter by assumption. cbn [fst snd].
+  f_equal. f_equal. f_equal. apply h_get_other. exact Hid.
+Qed.
+
+Lemma so_state_add R prev init a k :
+  so_state R (so_before R prev init a) (so_row R prev init a) k = so_state R prev init (a + k).
+Proof.
+  induction k as [|k IH].
+  - rewrite Nat.add_0_r. unfold so_before, so_row. destruct (so_state R prev init a); reflexivity.
+  - rewrite Nat.add_succ_r. cbn [so_state]. rewrite IH. reflexivity.
+Qed.
+
+Lemma last_rows {A} (ca : list (list A)) (f : nat -> list A) k :
+  last ca [] = f 0 -> last (ca ++ map f (seq 1 k)) [] = f k.
+Proof.
+  intros H0. destruct k as [|k]; [cbn [seq map]; rewrite app_nil_r; exact H0|].
+  rewrite seq_S, map_app, app_assoc. cbn [map]. apply last_last.
+Qed.
+
+Lemma map_seq_shift {A} (f : nat -> A) a n : forall s, map (fun k => f (a + k)) (seq s n) = map f (seq (a + s) n).
+Proof.
+  induction n as [|n IH]; intros s; [reflexivity|]. cbn [seq map]. rewrite IH, Nat.add_succ_r. reflexivity.
+Qed.
+
+(* evolve T1 steps, then evolve the RESULT T2 more steps with the same rule object: one run of
+   T1 + T2 - 1 steps; between and after the runs the object's vector holds the row before the last *)
+Theorem reversible_continues h ca_id arg R T1 T2 :
+  let prev := h_row h (arg_ref arg) in
+  let ca := h_get h ca_id in
+  let init := last ca [] in
+  let o := snd (mk_reversible h arg R) in
+  let out1 := ca ++ map (so_row R prev init) (seq 1 (T1 - 1)) in
+  let h2 := h ++ [[so_before R prev init (T1 - 1)]] in
+  (R < 256)%N -> 1 <= length init -> length prev = length init -> 1 <= T1 -> 1 <= T2 ->
+  evolve_heap (fst (mk_reversible h arg R)) ca_id T1 o 1 = Ok (h2, out1) /\
+  evolve_heap (h2 ++ [out1]) (length h2) T2 o 1 =
+    Ok (h ++ [[so_before R prev init (T1 + T2 - 2)]] ++ [out1],
+        ca ++ map (so_row R prev init) (seq 1 (T1 + T2 - 2))).
+Proof.
+  intros prev ca init o out1 h2 HR HN Hp HT1 HT2.
+  split.
+  { pose proof (reversible_second_order h ca_id arg R T1 HR HN Hp HT1) as E.
+    unfold run_reversible in E. rewrite mk_reversible_eq in E. exact E. }
+  unfold o. rewrite mk_reversible_eq. cbn [snd].
+  assert (Hlen2 : length h2 = S (length h)) by (unfold h2; rewrite app_length; cbn [length]; lia).
+  assert (Hlast : last out1 [] = so_row R prev init (T1 - 1)) by (apply last_rows; reflexivity).
+  destruct (so_state_len R prev init (T1 - 1) Hp) as [L1 L2].
+  pose proof (evolve_heap_priv h R (so_before R prev init (T1 - 1)) [out1] (S (length h)) T2 HR
+                (Nat.neq_succ_diag_l _)) as EV.
+  match type of EV with context [h_get ?HH ?ii] => assert (G : h_get HH ii = out1) end.
+  { unfold h_get. apply nth_succ_app. }
+  rewrite G, Hlast in EV.
+  specialize (EV ltac:(unfold so_row; lia) ltac:(unfold so_before, so_row; lia) HT2).
+  rewrite Hlen2. unfold h2. rewrite <- app_assoc. refine (eq_trans EV _). clear EV G.
+  assert (E : forall k, so_state R (so_before R prev init (T1 - 1)) (so_row R prev init (T1 - 1)) k
+                        = so_state R prev init (T1 - 1 + k)) by (intros k; apply so_state_add).
+  assert (Eb : so_before R (so_before R prev init (T1 - 1)) (so_row R prev init (T1 - 1)) (T2 - 1)
+               = so_before R prev init (T1 + T2 - 2)).
+  { unfold so_before at 1. rewrite E. replace (T1 - 1 + (T2 - 1)) with (T1 + T2 - 2) by lia. reflexivity. }
+  assert (Er : forall k, so_row R (so_before R prev init (T1 - 1)) (so_row R prev init (T1 - 1)) k
+                         = so_row R prev init (T1 - 1 + k)).
+  { intros k. unfold so_row at 1. rewrite E. reflexivity. }
+  rewrite Eb. f_equal. f_equal.
+  unfold out1. rewrite <- app_assoc. f_equal.
+  replace (T1 + T2 - 2) with ((T1 - 1) + (T2 - 1)) by lia. rewrite seq_app, map_app. f_equal.
+  replace (1 + (T1 - 1)) with (T1 - 1 + 1) by lia.
+  rewrite <- (map_seq_shift (so_row R prev init) (T1 - 1) (T2 - 1) 1).
+  apply map_ext. intros k. apply Er.
 Qed.
